@@ -58,4 +58,12 @@ CHECKS = {
                 "accuracy is not decidable with TLC integers).",
         "technique": "TLA+ exact measures oracle (integer/rational arithmetic); TLC trace validation of recorded measures",
     },
+    "C15": {
+        "text": "The boundary is defined in TLA+ as the set of points the DE-9IM location function puts on the boundary (mod-2 end points "
+                "per member, rings of polygons); TLC validates every recorded Boundary / Boundary-of-Boundary / PointOnSurface / Dimension "
+                "/ IsEmpty of the real library against it (PointOnSurface: exact location of the returned point, strict interior for areal "
+                "geometries, highest-dimension member for collections).",
+        "note": TLCNOTE + "Exact on lattices N<=16 and exact-similarity images; points within 2^-10 of a ring are inconclusive.",
+        "technique": "TLA+ interior/boundary location oracle; TLC trace validation of recorded Boundary/PointOnSurface calls",
+    },
 }
